@@ -4,6 +4,7 @@ import (
 	"fmt"
 	"go/token"
 	"go/types"
+	"os"
 	"sort"
 	"strings"
 
@@ -103,6 +104,7 @@ func (vc *VC) analyzeCFG() (order []*ssa.BasicBlock) {
 
 func (vc *VC) run() {
 	order := vc.analyzeCFG()
+	vc.resolveLineAsserts()
 	rs := &runState{out: map[*ssa.BasicBlock]*blockOut{}, edge: map[edgeKey]string{}, order: order}
 	vc.rs = rs
 	done := map[*ssa.BasicBlock]bool{}
@@ -137,6 +139,7 @@ func (vc *VC) execBlockBody(rs *runState, b *ssa.BasicBlock) {
 		if _, ok := ins.(*ssa.Phi); ok {
 			continue
 		}
+		vc.lineAsserts(ins)
 		vc.exec(rs, ins)
 	}
 	rs.out[b] = &blockOut{pc: vc.cur.pc, heap: vc.cur.heap}
@@ -548,6 +551,9 @@ func (vc *VC) enterBlock(rs *runState, b *ssa.BasicBlock) {
 		v := vc.symValNoWF(fmt.Sprintf("v_%s", phi.Name()), phi.Type(), hh)
 		vc.vals[phi] = v
 		vc.assumeWF(v, hh)
+		if v.K == KBV && !vc.intMode && len(vc.progTerms) < 16 {
+			vc.progTerms = append(vc.progTerms, skolem{v.C[0], bvSort(v.W)})
+		}
 	}
 	for _, inv := range li.invs {
 		if vc.dropped[inv.key] {
@@ -813,4 +819,81 @@ func allComps() map[string]bool {
 		m[c] = true
 	}
 	return m
+}
+
+// resolveLineAsserts maps each `assert "marker"` clause to the first instruction at or after the marker line.
+func (vc *VC) resolveLineAsserts() {
+	if vc.c == nil || len(vc.c.LineAsserts) == 0 || vc.fn.Syntax() == nil {
+		return
+	}
+	start := vc.e.fset.Position(vc.fn.Syntax().Pos())
+	end := vc.e.fset.Position(vc.fn.Syntax().End())
+	data, err := os.ReadFile(start.Filename)
+	if err != nil {
+		panic(specFail("cannot read " + start.Filename))
+	}
+	lines := strings.Split(string(data), "\n")
+	for _, la := range vc.c.LineAsserts {
+		la.target = nil
+		mline := 0
+		for ln := start.Line; ln <= end.Line && ln <= len(lines); ln++ {
+			if strings.Contains(lines[ln-1], la.Marker) {
+				mline = ln
+				break
+			}
+		}
+		if mline == 0 {
+			panic(specFail(fmt.Sprintf("assert marker %q not found in %s", la.Marker, vc.fn.Name())))
+		}
+		bestLine := 1 << 30
+		for _, b := range vc.fn.Blocks {
+			for _, ins := range b.Instrs {
+				if _, isPhi := ins.(*ssa.Phi); isPhi {
+					continue
+				}
+				p := ins.Pos()
+				if dr, ok := ins.(*ssa.DebugRef); ok {
+					p = dr.Expr.Pos()
+				}
+				if !p.IsValid() {
+					continue
+				}
+				l := vc.e.fset.Position(p).Line
+				if l >= mline && l < bestLine {
+					bestLine = l
+					la.target = ins
+				}
+			}
+		}
+		if la.target == nil {
+			panic(specFail(fmt.Sprintf("no instruction after assert marker %q in %s", la.Marker, vc.fn.Name())))
+		}
+	}
+}
+
+func (vc *VC) lineAsserts(ins ssa.Instruction) {
+	if vc.c == nil {
+		return
+	}
+	for _, la := range vc.c.LineAsserts {
+		if la.target != ins {
+			continue
+		}
+		from := len(vc.items)
+		env := vc.entryEnv()
+		env.heap = vc.cur.heap
+		heapNow := vc.cur.heap
+		env.local = func(name string) *Val { return vc.localAtInstr(name, ins, heapNow) }
+		env.localFirst = true
+		t := vc.compileClause(env, la.Cl)
+		kind := "assert"
+		if la.Cl.Label != "" {
+			kind = "assert." + la.Cl.Label
+		}
+		ob := vc.oblige(kind, vc.cur.pc, t, ins.Pos(), fmt.Sprintf("at %q: %s", la.Marker, la.Cl.Src))
+		ob.Scaffold = true
+		if la.Cut {
+			vc.cuts = append(vc.cuts, cutPoint{from: from, at: len(vc.items)})
+		}
+	}
 }
